@@ -373,6 +373,22 @@ INTROSPECTION_QUERY = ("query IntrospectionQuery { __schema { queryType { name k
                        "types { %s } directives { name description locations args { %s } } } }") % (FULL_TYPE, INPUT_VALUE)
 
 
+# The same question asked the way GraphiQL-style clients ask it: named fragments (one of them recursive in depth through
+# nesting, one spread at several depths) and includeDeprecated through variables. The answer must be the same data.
+_TYPE_REF_FRAG = ("fragment TypeRef on __Type { kind name ofType { kind name ofType { kind name ofType { kind name ofType { kind name "
+                  "ofType { kind name ofType { kind name } } } } } } }")
+_INPUT_VALUE_FRAG = "fragment InputValue on __InputValue { name description defaultValue type { ...TypeRef } }"
+_FULL_TYPE_FRAG = ("fragment FullType on __Type { kind name description fields(includeDeprecated: $d) { name description isDeprecated "
+                   "deprecationReason args { ...InputValue } type { ...TypeRef } } fieldsNoDep: fields { name isDeprecated } "
+                   "interfaces { kind name } possibleTypes { kind name } enumValues(includeDeprecated: $d) { name description "
+                   "isDeprecated deprecationReason } enumNoDep: enumValues(includeDeprecated: $nd) { name } "
+                   "inputFields { ...InputValue } ofType { name } }")
+INTROSPECTION_QUERY_FRAGMENTS = (
+    "query IntrospectionQuery($d: Boolean = true, $nd: Boolean) { __schema { queryType { name kind } mutationType { name } "
+    "subscriptionType { name } types { ...FullType } directives { name description locations args { ...InputValue } } } }\n"
+    + _FULL_TYPE_FRAG + "\n" + _INPUT_VALUE_FRAG + "\n" + _TYPE_REF_FRAG)
+
+
 def actual_args(lst, where, problems):
     out = {}
     for a in lst or []:
